@@ -831,6 +831,62 @@ func (w *World) laggedSnapshotRetention() {
 	w.latestOracle("Store.EnforceSnapshotRetention with the replica behind, then catch-up")
 }
 
+// snapshotAheadTimestampRestore (C15, end of a real-clock history; nothing is replayed to the model
+// afterwards): a transaction N+1 is synced into a local level-0 file that is NOT uploaded, then a
+// snapshot is taken (snapshots are written straight from the database, so the replica now holds
+// [1..N+1] stamped S while its level 0 ends at N). A restore at T = S may not use that snapshot
+// (created at T, not before it): it must produce state N, never the data of N+1 (seed C15e: a
+// "newest level-0 file is older than T, restore latest" shortcut).
+func (w *World) snapshotAheadTimestampRestore() {
+	ctx, cancel := context.WithTimeout(ctxb, 60*time.Second)
+	defer cancel()
+	n := w.pos()
+	if remoteL0Max(w.replicaDir) != n || n == 0 {
+		return
+	}
+	refN, err := refImage(w.dbPath, w.tmp)
+	if err != nil {
+		return
+	}
+	time.Sleep(3 * time.Millisecond)
+	if err := w.appWrite(); err != nil {
+		w.violate("harness/app-write", err.Error())
+		return
+	}
+	if err := w.ldb.Sync(ctx); err != nil {
+		w.violate("harness/sync", err.Error())
+		return
+	}
+	time.Sleep(3 * time.Millisecond)
+	info, err := w.ldb.Snapshot(ctx)
+	if err != nil || info == nil {
+		return
+	}
+	S := info.CreatedAt
+	// precondition: every other file of the replica is stamped before S
+	for _, f := range w.listing() {
+		if f.level == 9 && f.max == n+1 {
+			continue
+		}
+		if !w.cn.time(f.created).Before(S) {
+			return
+		}
+	}
+	w.counts["timestamp_restores_with_snapshot_ahead_of_level0"]++
+	got, err := restore(w.replicaDir, filepath.Join(w.tmp, "ahead.db"), 0, S)
+	if err != nil {
+		return // no eligible plan: an error is allowed
+	}
+	if d := diffPages(refN, got, w.pageSize); len(d) > 0 {
+		refN1, _ := refImage(w.dbPath, w.tmp)
+		later := refN1 != nil && len(diffPages(refN1, got, w.pageSize)) == 0
+		w.violate("C15/timestamp-restore-returns-later-state",
+			fmt.Sprintf("the replica's level 0 ends at TXID %d; TXID %d exists only in a snapshot stamped S; Restore(timestamp = S) must give the state of TXID %d but differs from it on pages %v (equal to the state of TXID %d: %v)", n, n+1, n, d, n+1, later))
+	}
+	w.ldb.Replica.SetPos(ltx.Pos{})
+	_ = w.ldb.Replica.Sync(ctx)
+}
+
 func remoteL0Max(replicaDir string) uint64 {
 	ents, _ := os.ReadDir(filepath.Join(replicaDir, "ltx", "0"))
 	var m uint64
@@ -1679,6 +1735,9 @@ func runHistory(dir string, rng *rand.Rand, steps int, start time.Time, index in
 	}
 	if len(w.violations) == 0 && focus == "c07" && index%3 == 0 {
 		w.laggedSnapshotRetention()
+	}
+	if len(w.violations) == 0 && focus == "c15" && w.style == "real" && !w.unsafe {
+		w.snapshotAheadTimestampRestore()
 	}
 	return res
 }
